@@ -1,5 +1,5 @@
 -------------------------- MODULE MC_SortOrderLaw --------------------------
 (* the order laws are constant-level: checked once, as an assumption *)
 EXTENDS SortOrderConsts
-ASSUME OrderLaws == StrictWeakOrder /\ RankOrder
+ASSUME OrderLaws == StrictWeakOrder /\ RankOrder /\ StringOrder
 =============================================================================
